@@ -750,6 +750,14 @@ impl StreamsState {
             ));
         }
 
+        if id.initiator() != self.side && id.index() >= self.max_remote[id.dir() as usize] {
+            // The frame implicitly opens the stream (and every lower-numbered one): it must
+            // respect the stream limit like any other frame naming a peer-initiated stream,
+            // otherwise the application is told about streams that cannot exist
+            debug!("got MAX_STREAM_DATA on {} beyond the stream limit", id);
+            return Err(TransportError::STREAM_LIMIT_ERROR(""));
+        }
+
         let write_limit = self.write_limit();
         let max_send_data = self.max_send_data(id);
         if let Some(ss) = self
